@@ -18,7 +18,7 @@ only-diagnostics-dropped: under NO_PROBLEM_INFO only properties/user_properties/
 cleared, for every acknowledgement type, and the flag comes from CONNECT's request_problem_info.
 reported-size: the builders' size() use the codec's own size functions. failed-encode-appends-nothing
 is C08.validate-before-write (imported). Numeric equality written == size for concrete values is
-implied only as far as the symbolic forms are; nothing is executed. only-diagnostics-dropped (continued): CONNACK and DISCONNECT are never stripped.
+implied only as far as the symbolic forms are; nothing is executed. only-diagnostics-dropped (continued): CONNACK and DISCONNECT are never stripped. only-diagnostics-dropped (continued): the stripping happens before encoded_size() is evaluated. contract (continued): the value compared with the limit is the computed size itself, not the size minus a part.
 """
 import os
 from facts import *
